@@ -44,6 +44,46 @@ nye_tensor, slip_vector, DifferentialDisplacement are scale free over the whole 
 numpy's default absolute 1e-8 on plane coordinates: open finding KEY_DISREG_UNIT, keyed to crystals whose planes are 1e-8
 units or less apart; everything else of such a case is judged before the keyed violation is raised).
 
+Cross-pollinated generator classes (what a check misses is almost never an oracle but a generator class; each class below is
+judged by the oracles described above, nothing else):
+  A result ledger (class Ledger): every array the judged calls hand out - function results, tuples, dicts, the arrays behind the
+    properties of Strain / DifferentialDisplacement objects, also those of an object's earlier state - is kept with a copy taken at
+    return time (the copy is what the oracles judge) and compared bit for bit at the end of the case, after the later calls on the
+    same objects, the other tools, the swapped pair and (io.twin) the same tools on another pair of systems of the SAME size;
+    results of different calls must not share memory with each other, with the inputs or with the systems' storage.  Arrays handed to
+    Strain.save_to_system leave the ledger (Atoms documents that direct setting keeps the given array and that later assignments
+    are saved over it in place).  Labels ledger / ledger_same_shape / twin.
+  B caller-side mutation: positions / cell / pbc / atype of every System handed to a tool, p vectors, axes, m, n, planepos (arrays and
+    nested lists) are bit-identical after the calls; with io.scribble the caller overwrites in place the arrays it was handed and
+    the arrays it handed in and calls again (displacement, slip_vector, disregistry: same answer as the first call), and re-uses
+    its p-vector / axes buffers right after a Strain object was set up (the object solves on first access; open finding
+    KEY_PV_VIEW for one ndarray list without axes).  Labels scribbled / pv_reused.
+  C storage and input dtypes: positions handed to Atoms as big-endian float64 (any case), single precision (displacement clause:
+    both systems rounded to it first and the case defined by the rounded coordinates; elsewhere where exactly representable), half
+    precision / int8 .. uint64 / big-endian integers for whole-number crystals, also shifted so that the extreme coordinate is the
+    limit of the dtype (127, -128, 255, 32767, -32768, 65535); displacement(box_reference=None) is judged in numpy's result type
+    of the two storages, as in C02; open finding KEY_SV_DTYPE (slip_vector refuses every storage but native float64).  Vector /
+    matrix arguments (m, n, planepos, axes, p vectors, positions of the in-place routes) as tuples, read-only, strided views,
+    big-endian, narrowest exact dtype (spell()); cutoff as numpy.float32 (the cutoff IS that number), theta_max as numpy.int16 /
+    float32, reference as numpy.uint8 / int8 / int64 / bool.  Labels stored_* / int_narrow / at_dtype_limit / arg_form* / pv_adt* /
+    cutoff_f32 / theta_npscalar / ref_scalar.
+  D working-unit configuration: does not apply - none of the anchored files reads atomman.unitconvert, none has a default or tolerance
+    in working units (disregistry's is relative to the box since e943bfc) and nothing derived from a unit is cached; the same
+    physical system in other units is the length-unit class above (unit_small / unit_si / unit_large).
+  E near-threshold values: strain |E| = 1e-4 .. 1e-12 and rotations of 1e-3 .. 1e-9 degrees (almost undeformed; cells whose
+    second-order tilts fall under Box's documented 1e-9 clean-up are skipped as before), slips of 1e-3 .. 1e-10 neighbour
+    distances, random displacements of 1e-4 .. 1e-12 widths, slip and m directions 1e-3 .. 1e-12 degrees off a cell edge / a
+    close-packed direction, slip planes a relative 1e-3 .. 1e-9 of the layer gap from an atomic plane, cells shifted so that atoms
+    are a relative 1e-3 .. 1e-12 from a periodic face, hcp c/a a relative 1e-3 .. 1e-12 from ideal.  Labels near_identity / tiny_E /
+    tiny_R / tiny_slip / tiny_u / slip_near_axis / m_near_axis / plane_near_atoms / near_face / ca_near_ideal.
+  F many decades in one call: displacement mode 'decades' - the per-atom displacements of ONE call span 8-12 decades; each row is
+    judged relative to its own magnitude (64 eps x coordinate size + 1e-9 |u_i|) and bit-equal to the call on that atom alone.
+  G exactly structured inputs: the 23 proper signed permutations of the axes applied to atoms and cell (exact zeros, negative
+    entries, lower / upper triangular cells in every arrangement), the cell vectors relabelled in all 6 orders (left-handed cells),
+    F = I + M with M zero / diagonal / strictly lower / strictly upper triangular / full with entries k/256, translations by exactly
+    whole cell vectors.  Labels sperm / vperm / lefthanded / F_struct / F_identity / F_lower / F_upper / F_diag / whole_cells.
+  H enumerated option combinations: clause 'options' (gens_c17.option_cases), an exhaustive list on fixed small crystals.
+
 Tolerances: every comparison is absolute 1e-9 in units of S (lengths: 1e-9 S, tensors dimensionless: 1e-9, Nye in
 1/length: 1e-9 / S) unless stated: positions are below ~150 S in magnitude, so neighbour vectors carry <= 4e-14 absolute rounding,
 the least-squares solves are only judged where the neighbour set has singular-value ratio >= 0.05 (condition <= 20),
@@ -51,7 +91,9 @@ which bounds every result error by ~1e-11.  Common translations of up to 60 chan
 to the same effect.  Neighbour decisions stay away from the cutoff by construction (cutoff inside a shell gap with a
 margin of 1 % for the reference crystal and 4.5 % where the deformed crystal's list is used; strain norm <= 3 %).
 """
+import copy
 import functools
+import itertools
 import math
 import warnings
 
@@ -86,7 +128,14 @@ RULE = ("reference crystals fcc / bcc / hcp (c/a 1.55-1.9 incl. ideal) / B2 / L1
         "read, changed through solve_G() / solve_G(theta_max) / clear_properties() / the theta_max setter / set_p_vectors / "
         "build_p_vectors and judged after the second solve with its properties read in a drawn order; DifferentialDisplacement "
         "objects are re-solved after another cutoff / reference / swapped systems / in-place updates of their systems / the "
-        "reference setter; neighbour lists reach every tool by cutoff, explicit list or the systems' 'neighbors' attribute")
+        "reference setter; neighbour lists reach every tool by cutoff, explicit list or the systems' 'neighbors' attribute.  "
+        "Cross-pollinated classes (module docstring): result ledger with later calls on the same objects / a pair of the same size, "
+        "caller-side overwriting and re-use of everything handed in and out, positions stored as big-endian / single / half precision / "
+        "narrow, unsigned and big-endian integers up to the dtype limits, arguments as tuples / read-only / strided / big-endian / narrow "
+        "arrays and numpy scalars, almost-zero strains, rotations, slips and displacements (1e-3 .. 1e-12), directions, slip planes, cell "
+        "faces and c/a almost at their special values, per-atom displacements spanning 8-12 decades in one call, signed permutations of "
+        "the axes, relabelled (left-handed) cells, triangular / diagonal / identity F with entries k/256, and an exhaustive list of option "
+        "combinations on fixed small crystals")
 ASSUMPTIONS = ["numpy linear algebra is correct",
                "System.supersize / System.rotate build the crystal they document (judged by C04), Box keeps the cell it is given "
                "(C01), NeighborList lists exactly the pairs below the cutoff (C03): the check compares per-pair results against "
@@ -105,7 +154,10 @@ LEVEL_TEXT = ("Hand-built fcc/bcc/hcp/B2/L1_2 crystals in standard, re-oriented 
               "axes-transformed / first-shell-only p vectors, given neighbour lists) and both references of DifferentialDisplacement; "
               "all of it also after earlier use of the same System / Strain / DifferentialDisplacement objects (queries, stale "
               "'neighbors' attributes, in-place updates through every public setter, re-solves) and of the same process; "
-              "every case expressed in a length unit between 1e-12 and 1e4 (Angstrom-like numbers, nm, metres, large numbers).")
+              "every case expressed in a length unit between 1e-12 and 1e4 (Angstrom-like numbers, nm, metres, large numbers); "
+              "results re-judged bit for bit after later calls (ledger), inputs and outputs overwritten by the caller, narrow / big-endian "
+              "storage and argument dtypes, near-threshold magnitudes down to 1e-12, decades of displacement in one call, exactly "
+              "structured cells and gradients, and enumerated option combinations.")
 TECHNIQUE = ("closed-form expectation from the imposed F / slip (G = F^-T, strain/rotation/invariants, zero Nye, n_across * relative "
              "displacement, u_j - u_i per listed pair), own neighbour enumeration, class-vs-function-vs-own-curl agreement on slipped "
              "crystals, metamorphic translation / renumbering")
@@ -118,8 +170,270 @@ KEY_NONCONTIG = 'C17:Strain:p_vectors-array:not-C-contiguous'
 KEY_ROASSIGN = 'C17:Strain:p_vectors-per-atom-array:read-only-assignment'
 KEY_DISREG_UNIT = 'C17:disregistry:absolute-isclose-tolerance:plane-spacing-below-1e-8-units'
 DISREG_MSG = 'planepos must fall between atomic planes'
+KEY_SV_DTYPE = 'C17:slip_vector:positions-not-stored-as-float64'
+KEY_PV_VIEW = 'C17:Strain:p_vectors-single-ndarray:keeps-view-of-callers-array'
 I3 = np.eye(3)
 MAXATOMS = 900
+IDEAL_CA = (8.0 / 3.0) ** 0.5
+
+
+def _signed_permutations():
+    """the 24 proper signed permutation matrices, identity first"""
+    out = []
+    for perm in itertools.permutations(range(3)):
+        for sg in itertools.product((1.0, -1.0), repeat=3):
+            M = np.zeros((3, 3))
+            for i in range(3):
+                M[i, perm[i]] = sg[i]
+            if np.linalg.det(M) > 0:
+                out.append(M)
+    assert len(out) == 24 and np.array_equal(out[0], np.eye(3))
+    return out
+
+
+SPERMS = _signed_permutations()
+VPERMS = list(itertools.permutations(range(3)))          # odd (left-handed): indices 1, 2, 5
+LIMIT_DTYPES = {'i1max': 'i1', 'i1min': 'i1', 'u1max': 'u1', 'i2max': 'i2', 'i2min': 'i2', 'u2max': 'u2'}
+NOIO = {'pdt': 0, 'idt': 0, 'adt': 0, 'scal': 0, 'twin': False, 'scribble': False}
+
+
+# ----------------------------------------------------------------------------- ledger, caller-side mutation, spellings, dtypes
+
+def _leaves(raw, where):
+    """(name, ndarray) for every numeric array inside what a call handed out / was handed (arrays, tuples, lists, dicts,
+    object arrays of arrays)"""
+    if isinstance(raw, np.ndarray):
+        if raw.dtype == object:
+            for n, x in enumerate(raw):
+                yield from _leaves(x, '%s[%d]' % (where, n))
+        else:
+            yield where, raw
+    elif isinstance(raw, dict):
+        for k in sorted(raw):
+            yield from _leaves(raw[k], '%s[%r]' % (where, k))
+    elif isinstance(raw, (tuple, list)):
+        for n, x in enumerate(raw):
+            yield from _leaves(x, '%s[%d]' % (where, n))
+
+
+def _bits(a):
+    return (a.shape, a.dtype.str, a.tobytes())
+
+
+class Ledger:
+    """Class A (result ledger) and class B (caller-side mutation) of the cross-pollination round.
+
+    Everything a judged call handed OUT (arrays, tuples and dicts of arrays, the arrays behind object properties) is kept
+    together with a copy taken at return time - the copy is what the oracles judge -, and re-compared bit for bit after all
+    LATER calls on the same objects, on other objects of the same size and of the other tools (verify): a result the caller
+    holds must stay the result of ITS call.  Results of different function calls must not share memory with each other nor
+    with anything handed in.  Everything handed IN (position / cell storage of the System objects, p vectors, axes, m, n,
+    planepos, neighbour tables; arrays and nested lists) must be bit-identical after the calls."""
+
+    def __init__(self):
+        self.res, self.ins, self.sys, self.systems = [], [], [], []
+
+    def add(self, raw, where, fresh=True):
+        for name, a in _leaves(raw, where):
+            if not any(a is x[0] for x in self.res):
+                self.res.append((a, a.copy(), name, fresh))
+        return raw
+
+    def add_input(self, raw, where):
+        if isinstance(raw, (list, tuple)) and not any(raw is x[0] for x in self.ins):
+            self.ins.append((raw, copy.deepcopy(raw), where))
+        for name, a in _leaves(raw, where):
+            if not any(a is x[0] for x in self.ins):
+                self.ins.append((a, a.copy(), name))
+        return raw
+
+    def add_system(self, s, where):
+        self.systems.append(s)
+        for name, get in (('atoms.pos', lambda: s.atoms.pos), ('atoms.atype', lambda: s.atoms.atype), ('box.vects', lambda: s.box.vects),
+                          ('box.origin', lambda: s.box.origin), ('pbc', lambda: np.asarray(s.pbc))):
+            self.sys.append((get, np.array(get()), '%s.%s' % (where, name)))
+
+    @staticmethod
+    def _same(a, b):
+        if isinstance(a, np.ndarray):
+            return isinstance(b, np.ndarray) and _bits(a) == _bits(b)
+        if isinstance(a, (list, tuple)):
+            return type(a) is type(b) and len(a) == len(b) and all(Ledger._same(x, y) for x, y in zip(a, b))
+        return type(a) is type(b) and a == b
+
+    def verify(self, labels, when):
+        # An array handed to Strain.save_to_system() is from then on the per-atom property of the System: Atoms documents that
+        # direct setting may keep the array it is given and that a later assignment to an existing key is saved over the old
+        # values in place.  Such arrays (a strain read earlier and then saved, overwritten by the next save) leave the ledger.
+        views = [v for x in self.systems for v in x.atoms.view.values()]
+        self.res = [x for x in self.res if not any(np.may_share_memory(x[0], v) and np.shares_memory(x[0], v) for v in views)]
+        for a, snap, name, _ in self.res:
+            require(_bits(a) == _bits(snap), lambda: 'result ledger (%s): %s was %r ... when it was returned and is %r ... now (first differing '
+                    'element %d of %d): a result the caller holds was changed by a later call'
+                    % (when, name, snap.ravel()[:4].tolist(), a.ravel()[:4].tolist(),
+                       int(np.argmax(a.ravel() != snap.ravel())) if a.shape == snap.shape else -1, a.size))
+        for a, snap, name in self.ins:
+            require(self._same(a, snap), lambda: 'caller-side (%s): the input %s was changed by the call: %r -> %r'
+                    % (when, name, np.asarray(snap).ravel()[:6].tolist() if isinstance(snap, np.ndarray) else str(snap)[:120],
+                       np.asarray(a).ravel()[:6].tolist() if isinstance(a, np.ndarray) else str(a)[:120]))
+        for get, snap, name in self.sys:
+            now = np.asarray(get())
+            require(_bits(now) == _bits(snap), lambda: 'caller-side (%s): %s of a System handed to the tools changed (dtype %s -> %s, largest change %.3g)'
+                    % (when, name, snap.dtype, now.dtype, amax(now.astype(float) - snap.astype(float)) if now.shape == snap.shape else float('nan')))
+        fresh = [x for x in self.res if x[3] and x[0].size]
+        for i in range(len(fresh)):
+            a = fresh[i][0]
+            for j in range(i + 1, len(fresh)):
+                b = fresh[j][0]
+                if np.may_share_memory(a, b) and np.shares_memory(a, b) and fresh[i][2].split('[')[0] != fresh[j][2].split('[')[0]:
+                    raise Violation('result ledger (%s): the arrays handed out by two calls share memory: %s / %s' % (when, fresh[i][2], fresh[j][2]))
+            for b, _, name in self.ins:
+                if isinstance(b, np.ndarray) and b.size and np.may_share_memory(a, b) and np.shares_memory(a, b):
+                    raise Violation('result ledger (%s): %s shares memory with the input %s' % (when, fresh[i][2], name))
+            for get, _, name in self.sys:
+                b = get()
+                if isinstance(b, np.ndarray) and np.may_share_memory(a, b) and np.shares_memory(a, b):
+                    raise Violation('result ledger (%s): %s shares memory with %s' % (when, fresh[i][2], name))
+        if len(self.res) >= 2:
+            labels.add('ledger')
+        if len({x[0].shape for x in self.res}) < len(self.res):
+            labels.add('ledger_same_shape')          # two results of one shape: where a shared workspace would show
+
+    def snapshot(self, name):
+        """the copy taken when `name` was returned"""
+        for a, snap, n, _ in self.res:
+            if n == name:
+                return snap
+        raise KeyError(name)
+
+    def scribble(self, labels):
+        """the caller re-uses what it holds: every writable array handed out and every writable array it handed in is
+        overwritten in place (the ledger is closed by this).  Returns the number of arrays overwritten."""
+        n = 0
+        for a, _, _, fresh in self.res:
+            if fresh:
+                n += scribble(a)
+        for a, _, _ in self.ins:
+            if isinstance(a, np.ndarray):
+                n += scribble(a)
+        self.res, self.ins = [], []
+        if n:
+            labels.add('scribbled')
+        return n
+
+
+def scribble(a):
+    """overwrite an array the caller owns in place with other finite numbers of its dtype"""
+    if not (isinstance(a, np.ndarray) and a.flags.writeable and a.size and a.dtype.kind in 'fiub'):
+        return 0
+    if a.dtype.kind == 'f':
+        a[...] = np.asarray(a)[..., ::-1] * 0.75 + 0.25 if a.ndim else a * 0.75 + 0.25
+    elif a.dtype.kind == 'b':
+        a[...] = ~a
+    else:
+        a[...] = np.bitwise_xor(a, 1)
+    return 1
+
+
+def _totuple(x):
+    return tuple(_totuple(y) for y in x) if isinstance(x, list) else x
+
+
+def narrowest_exact(a):
+    """the same numbers in the narrowest dtype that holds them exactly: int8 / int16 / int32 for whole numbers, else
+    float32 where exact, else unchanged"""
+    a = np.asarray(a, dtype=float)
+    if a.size and np.array_equal(a, np.rint(a)):
+        for dt in ('i1', 'i2', 'i4'):
+            info = np.iinfo(dt)
+            if a.min() >= info.min and a.max() <= info.max:
+                return a.astype(dt)
+    f = a.astype(np.float32)
+    if np.array_equal(f.astype(float), a):
+        return f
+    return a
+
+
+def spell(a, code, labels=None):
+    """Class C: one vector / matrix argument with the same numbers in another documented spelling ('array-like'):
+    0 float64 ndarray, 1 nested lists, 2 nested tuples, 3 read-only, 4 strided (non-contiguous) view, 5 big-endian,
+    6 narrowest exact dtype (int8 .. int32 for whole numbers, float32 where exact)"""
+    a = np.array(a, dtype=float)
+    c = int(code) % 7
+    if c == 1:
+        out = a.tolist()
+    elif c == 2:
+        out = _totuple(a.tolist())
+    elif c == 3:
+        a.setflags(write=False)
+        out = a
+    elif c == 4:
+        big = np.full(a.shape[:-1] + (2 * a.shape[-1],), np.nan)
+        out = big[..., ::2]
+        out[...] = a
+    elif c == 5:
+        out = a.astype('>f8')
+    elif c == 6:
+        out = narrowest_exact(a)
+        if labels is not None and out.dtype != a.dtype:
+            labels.add('arg_narrow')
+            if out.dtype.kind == 'i':
+                labels.add('arg_int')
+    else:
+        out = a
+    if labels is not None and c:
+        labels.add('arg_form%d' % c)
+    return out
+
+
+_INT_MENU = ('i1', 'u1', 'i2', 'u2', 'i4', '>i4', '>i2', 'u4', 'i8', 'u8', '>i8', 'i1')
+
+
+def _int_fit(P, name):
+    """the integer dtype `name`, widened (unsigned -> signed when there are negative values) until it holds P"""
+    chain = {'i1': 'i2', 'u1': 'i1', 'i2': 'i4', 'u2': 'i2', 'i4': 'i8', 'u4': 'i4', '>i2': '>i4', '>i4': '>i8', 'u8': 'i8'}
+    while True:
+        info = np.iinfo(name)
+        if P.min() >= info.min and P.max() <= info.max:
+            return np.dtype(name)
+        name = chain[name]
+
+
+def storage(P, intpos, io, limit=None):
+    """Class C: the positions in the dtype they are handed to Atoms in (Atoms keeps a floating dtype as it is and converts
+    integers to float64).  Only value-preserving conversions: whole numbers as (narrow / unsigned / big-endian) integers or
+    half / single precision, anything as big-endian float64, single precision where every value is exactly representable."""
+    P = np.array(P, dtype=float)
+    pdt = io.get('pdt') or 0
+    whole = bool(P.size) and np.array_equal(P, np.rint(P))
+    if pdt == 'int' and whole:
+        return P.astype(_int_fit(P, LIMIT_DTYPES[limit] if limit else _INT_MENU[io.get('idt', 0) % len(_INT_MENU)]))
+    if pdt == 'be':
+        return P.astype('>f8')
+    if pdt in ('f16', 'f32'):
+        for dt in ((np.float16, np.float32) if pdt == 'f16' else (np.float32,)):
+            with np.errstate(over='ignore'):
+                Q = P.astype(dt)
+            if np.array_equal(Q.astype(float), P):
+                return Q
+        return P
+    if intpos and whole:
+        return P.astype(int)
+    return P
+
+
+def narrow32(P):
+    """P rounded to single precision, as float64 (the displacement clause defines its systems by these values)"""
+    return np.asarray(P, dtype=float).astype(np.float32).astype(float)
+
+
+def storage_labels(s, labels, who):
+    dt = s.atoms.pos.dtype
+    if dt != np.dtype(float):
+        labels.add('stored_narrow')
+        labels.add('stored_%s%d%s' % (dt.kind, dt.itemsize, '_be' if dt.byteorder == '>' else ''))
+        labels.add('stored_narrow%d' % who)
+    return dt != np.dtype(float)
 
 
 # ----------------------------------------------------------------------------- crystals
@@ -213,8 +527,23 @@ def build_ref(xt, need, need_axis=None):
     if xt['rot']:
         R = gens.rotation_matrix(*xt['rot'])
         pos, vects, origin = pos @ R.T, vects @ R.T, origin @ R.T
+    sp = int(xt.get('sperm') or 0) % len(SPERMS)
+    if sp:
+        # exactly structured orientation: a proper signed permutation of the Cartesian axes (cell vectors along -x, +z, ...:
+        # exact zeros and negative entries, lower / upper triangular cells in every arrangement)
+        R = SPERMS[sp] @ R
+        pos, vects, origin = pos @ SPERMS[sp].T, vects @ SPERMS[sp].T, origin @ SPERMS[sp].T
+    vp = int(xt.get('vperm') or 0) % len(VPERMS)
+    if vp:
+        vects = vects[list(VPERMS[vp])]          # the same cell with its vectors relabelled (odd: left-handed)
     shift = np.array(xt['origin'], dtype=float)
     pos, origin = pos + shift, origin + shift
+    lim = xt.get('limit')
+    if lim and S == 1.0 and np.array_equal(pos, np.rint(pos)) and np.array_equal(origin, np.rint(origin)):
+        # whole-number crystal moved by a whole vector so that its extreme coordinate is the limit of a narrow integer dtype
+        info = np.iinfo(LIMIT_DTYPES[lim])
+        mv = (info.max - pos.max(axis=0)) if lim.endswith('max') else (info.min - pos.min(axis=0))
+        pos, origin = pos + mv, origin + mv
     if S != 1.0:
         pos, vects, origin, V, a = pos * S, vects * S, origin * S, V * S, a * S
     perm = DR.permutation(len(pos), xt['perm'])
@@ -224,24 +553,31 @@ def build_ref(xt, need, need_axis=None):
     r.S = S
     r.A = R @ T                    # crystal frame -> system frame
     r.uv, r.oi = uv, oi
+    r.sperm, r.vperm = sp, vp
     r.ucell = (V, rel)
     r.natoms = len(pos)
     r.twotype = kind in ('b2', 'l12')
-    r.reoriented = bool(oi) or bool(xt['rot'])
-    r.rotated = bool(xt['rot'])
+    r.reoriented = bool(oi) or bool(xt['rot']) or bool(sp)
+    r.rotated = bool(xt['rot']) or bool(sp)
+    r.limit = lim if (lim and S == 1.0) else None
     return r
 
 
-def mk_system(pos, atype, vects, origin, pbc, intpos=False, labels=None):
+def mk_system(pos, atype, vects, origin, pbc, intpos=False, labels=None, io=None, limit=None):
     """intpos: coordinates that are all whole numbers are handed over as an integer array (documented input:
-    'list/ndarray of float'; whole numbers written without a decimal point are the common way to type a small cell)"""
+    'list/ndarray of float'; whole numbers written without a decimal point are the common way to type a small cell);
+    io: storage dtype of the positions (see storage())"""
     import atomman as am
-    P = np.array(pos, dtype=float)
-    if intpos and np.array_equal(P, np.rint(P)):
-        P = P.astype(int)
+    P = storage(pos, intpos, io or NOIO, limit)
+    atype = np.array(atype, dtype=int)
+    if P.dtype.kind in 'iu':
         if labels is not None:
             labels.add('int_pos')
-    return am.System(atoms=am.Atoms(pos=P, atype=np.array(atype, dtype=int)),
+            if P.dtype != np.dtype(int):
+                labels.add('int_narrow')
+        if P.dtype.itemsize < 8:
+            atype = atype.astype(np.dtype('u1') if P.dtype.kind == 'u' else np.dtype('i1'))
+    return am.System(atoms=am.Atoms(pos=P, atype=atype),
                      box=am.Box(vects=np.array(vects, dtype=float), origin=np.array(origin, dtype=float)),
                      pbc=[bool(x) for x in pbc])
 
@@ -255,6 +591,18 @@ def box_kept(system, vects, origin):
 
 def xtal_labels(r):
     labs = {r.kind}
+    if r.sperm:
+        labs.add('sperm')                  # class G: signed permutation of the axes
+    if r.vperm:
+        labs.add('vperm')
+        if r.vperm in (1, 2, 5):
+            labs.add('lefthanded')
+    if r.sperm or r.vperm:
+        labs.add('structured_cell')
+    if r.limit:
+        labs.add('at_dtype_limit')
+    if r.kind == 'hcp' and 0.0 < abs(r.ca / IDEAL_CA - 1.0) <= 2e-3:
+        labs.add('ca_near_ideal')          # class E
     if r.oi:
         labs.add('reoriented')
     if r.rotated:
@@ -267,7 +615,13 @@ def xtal_labels(r):
 # ----------------------------------------------------------------------------- deformations
 
 def gradient(Fd):
-    """F = R (I + E), |E|_2 = emag"""
+    """F = R (I + E), |E|_2 = emag; or exactly structured F = I + M (entries k/256).  Returns F, has a rotation part,
+    has a strain part"""
+    if Fd.get('M') is not None:
+        M = np.array(Fd['M'], dtype=float).reshape(3, 3)
+        F = I3 + M
+        hasE = bool(np.any(F.T @ F != I3))
+        return F, bool(np.any(M != M.T)), hasE
     R = gens.rotation_matrix(*Fd['rot']) if Fd['rot'] else np.eye(3)
     e = Fd['E']
     S = np.array([[e[0], e[3], e[4]], [e[3], e[1], e[5]], [e[4], e[5], e[2]]], dtype=float)
@@ -275,6 +629,21 @@ def gradient(Fd):
     if Fd['emag'] > 0:
         E = S * (Fd['emag'] / np.linalg.norm(S, 2))
     return R @ (I3 + E), bool(Fd['rot']), Fd['emag'] > 0
+
+
+def gradient_labels(Fd):
+    """classes E (almost no strain / rotation) and G (exactly structured F)"""
+    labs = set()
+    if Fd.get('M') is not None:
+        labs |= {'F_struct', 'F_' + str(Fd.get('skind', 'struct'))}
+    else:
+        if 0.0 < Fd['emag'] <= 1e-4:
+            labs.add('tiny_E')
+        if Fd['rot'] and Fd['rot'][1] <= 1e-3:
+            labs.add('tiny_R')
+        if labs:
+            labs.add('near_identity')
+    return labs
 
 
 def deform(r, F, move, pbc):
@@ -554,8 +923,8 @@ def run_queries(am, s, ops, xt, rc, labels, allow_wrap):
     wrapped = False
     for q in ops:
         op, k, x = q['op'], q['k'], q['x']
-        if op == 'wrap' and not allow_wrap:
-            op = 'scaled'
+        if op == 'wrap' and (not allow_wrap or s.atoms.pos.dtype.itemsize < 8):
+            op = 'scaled'          # (wrap() on half / single precision storage rounds the wrapped coordinates: not a whole cell vector)
         with warnings.catch_warnings():
             warnings.simplefilter('ignore')
             if op in ('nlist', 'attr'):
@@ -609,7 +978,7 @@ def after_queries(s, snap, wrapped, what):
 
 
 def input_form(a, form):
-    """the same numbers as nested lists / Fortran-ordered / read-only array"""
+    """the same numbers as nested lists / Fortran-ordered / read-only array / strided view / big-endian / narrowest exact dtype"""
     a = np.array(a, dtype=float)
     if form == 1:
         return a.tolist()
@@ -617,12 +986,16 @@ def input_form(a, form):
         return np.asfortranarray(a)
     if form == 3:
         a.setflags(write=False)
+    if form in (4, 5, 6):
+        return spell(a, form)
     return a
 
 
 def set_state(s, pos, vects, origin, pbc, b, labels):
     """bring an existing System object to another state through its public setters: box, pbc, then positions"""
-    P = input_form(pos, b['form'] % 4)
+    P = input_form(pos, b['form'] % 7)
+    if b['form'] % 7 >= 4:
+        labels.add('setpos_form%d' % (b['form'] % 7))
     vects, origin = np.array(vects, dtype=float), np.array(origin, dtype=float)
     same_vects = np.array_equal(np.asarray(s.box.vects), vects)
     br = b['box'] % 6
@@ -668,14 +1041,22 @@ def staged_system(am, b, ops, intpos, atype, stateA, final, xt, rc, labels, allo
     selected by b, runs the remaining queries and returns (cell arrived unchanged, positions now held).
     Returns (system, cell of the first state arrived unchanged, finish)."""
     pos, vects, origin, pbc = final
+    intpos, io, limit = (intpos if isinstance(intpos, tuple) else (intpos, None, None))
     if b is None:
-        s = mk_system(pos, atype, vects, origin, pbc, intpos, labels)
+        s = mk_system(pos, atype, vects, origin, pbc, intpos, labels, io, limit)
         keptA = box_kept(s, vects, origin)
         first = []
     else:
         posA, vectsA, originA = stateA
         pbcA = [not x for x in pbc] if b['pbcflip'] else pbc
-        s = mk_system(posA, atype, vectsA, originA, pbcA, intpos, labels)
+        # half / single precision storage survives the in-place setters (values assigned into it are rounded): used for the
+        # first state only where the judged positions are exactly representable in the same dtype
+        ioA = io
+        if io and io.get('pdt') in ('f16', 'f32'):
+            dA, dF = storage(posA, intpos, io).dtype, storage(pos, intpos, io).dtype
+            if dA != dF:
+                ioA = dict(io, pdt=0)
+        s = mk_system(posA, atype, vectsA, originA, pbcA, intpos, labels, ioA, None)
         keptA = box_kept(s, vectsA, originA)
         first, ops = ops[:(len(ops) + 1) // 2], ops[(len(ops) + 1) // 2:]
         if keptA:
@@ -689,11 +1070,13 @@ def staged_system(am, b, ops, intpos, atype, stateA, final, xt, rc, labels, allo
             labels.add('ref_inplace_built' if who.startswith('ref') else 'cur_inplace_built')
         kept = box_kept(s, vects, origin)
         snap = snapshot(s)
-        if b is not None:
-            # every setter route must have produced the judged state itself
+        if b is not None and kept:
+            # every setter route must have produced the judged state itself (where Box kept the cell it was given: its
+            # documented clean-up zeroes components below 1e-9 of the largest, e.g. the second-order tilts of an almost
+            # undeformed cell; such cases are skipped by the callers)
             require(np.abs(snap[0] - pos).max() <= 64 * DR.EPS * (amax(pos) + amax(vects) + amax(origin)),
                     lambda: '%s: positions set through route pos=%d box=%d form=%d differ from the given ones by %.3g'
-                    % (who, b['pos'] % 6, b['box'] % 6, b['form'] % 4, np.abs(snap[0] - pos).max()))
+                    % (who, b['pos'] % 6, b['box'] % 6, b['form'] % 7, np.abs(snap[0] - pos).max()))
         wrapped = run_queries(am, s, ops, xt, rc, labels, allow_wrap) if kept else False
         now = after_queries(s, snap, wrapped, who) if kept else snap[0]
         if first or ops:
@@ -707,7 +1090,7 @@ def staged_system(am, b, ops, intpos, atype, stateA, final, xt, rc, labels, allo
 def make_current(am, hist, r, stateA, pos1, vects1, origin1, pbc1, xt, rc, labels, allow_wrap, while_A=None):
     """the deformed System object (see staged_system); while_A(s1, keptA) is called while it is in its first state.
     Returns (s1, cell arrived unchanged, positions now held)."""
-    s1, keptA, finish = staged_system(am, hist['build1'], hist['ops1'], hist['intpos'], r.atype, stateA,
+    s1, keptA, finish = staged_system(am, hist['build1'], hist['ops1'], (hist['intpos'], hist.get('io'), None), r.atype, stateA,
                                       (pos1, vects1, origin1, pbc1), xt, rc, labels, allow_wrap, 'deformed system')
     if hist['build1'] is not None and while_A is not None:
         while_A(s1, keptA)
@@ -725,7 +1108,7 @@ def reference_stateA(r):
 
 def make_reference(am, hist, r, pbc, xt, rc, labels, allow_wrap, staged=False):
     """the reference System object; staged: returns (s0, finish) with the object still in its first state"""
-    s0, _, finish = staged_system(am, hist.get('build0'), hist['ops0'], hist['intpos'], r.atype, reference_stateA(r),
+    s0, _, finish = staged_system(am, hist.get('build0'), hist['ops0'], (hist['intpos'], hist.get('io'), r.limit), r.atype, reference_stateA(r),
                                   (r.pos, r.vects, r.origin, pbc), xt, rc, labels, allow_wrap, 'reference system')
     if staged:
         return s0, finish
@@ -773,6 +1156,8 @@ def oracle_displacement(case):
     mode = case['mode']
     labels = {'mode_' + mode, 'boxref_' + case['boxref']}
     xt, S = unit_xtal(case, labels)
+    io = case.get('io') or NOIO
+    led = Ledger()
     pbc = [bool(x) for x in case['pbc']]
     rc, dnn, _, _ = choose_cutoff(xt, case['shells'], 0.01, 1.05, False)
     r = build_ref(xt, 2.2 * (rc + 0.45 * dnn))
@@ -793,16 +1178,38 @@ def oracle_displacement(case):
     else:
         wmin = min(DR.min_width(r.vects, pbc), DR.min_width(r.vects, pbc1))
         scale = wmin if np.isfinite(wmin) else DR.perp_widths(r.vects).min()
-        u = DR.uniform(3 * r.natoms, case['useed']).reshape(-1, 3) * (case['amp'] * scale / math.sqrt(3.0))
+        if mode == 'decades':
+            # class F: ONE call whose rows span ndec decades: atom i is displaced by a vector of length <= dtop x 0.45 widths
+            # x 10**-(i % (ndec + 1)); every row is judged relative to its own magnitude and against the one-atom call
+            dec = np.arange(r.natoms) % (case['ndec'] + 1)
+            u = DR.uniform(3 * r.natoms, case['useed']).reshape(-1, 3) * (case['dtop'] * 0.45 * scale / math.sqrt(3.0)) * (10.0 ** -dec)[:, None]
+        else:
+            u = DR.uniform(3 * r.natoms, case['useed']).reshape(-1, 3) * (case['amp'] * scale / math.sqrt(3.0))
+            if 0.0 < case['amp'] <= 1e-3:
+                labels.add('tiny_u')          # class E: almost no displacement
         if mode == 'big':
             u = u + np.array(case['bigt'], dtype=float) @ r.vects
+            if not case['amp'] and np.array_equal(np.rint(case['bigt']), case['bigt']):
+                labels.add('whole_cells')          # class G: exactly whole cell vectors
         pos1 = r.pos + u
         vects1 = r.vects
         bs = np.array([case['move']['boxshift'][k] if pbc1[k] else 0.0 for k in range(3)])
         origin1 = r.origin + bs @ vects1
         pos1, shift = DR.wrap(pos1, vects1, origin1, pbc1)
+    if io.get('pdt') == 'f32':
+        # class C: both systems hold single-precision positions.  The case is DEFINED by the rounded coordinates (exactly
+        # representable, so nothing is lost when they are stored): the imposed displacement of atom i moves with them
+        p0n, p1n = narrow32(r.pos), narrow32(pos1)
+        u = u + (p1n - pos1) - (p0n - r.pos)
+        r.pos, pos1 = p0n, p1n
+    if any(abs(x) in (1e-3, 1e-6, 1e-9, 1e-12) for x in case['move']['boxshift']) and mode != 'slip':
+        labels.add('near_face')              # class E: atoms a relative 1e-3 .. 1e-12 from a periodic face
+    if mode == 'F':
+        labels |= gradient_labels(case['F'])
+    elif mode == 'slip':
+        labels |= slip_labels(case)
     labels |= xtal_labels(r)
-    hist = case.get('hist') or NOHIST
+    hist = dict(case.get('hist') or NOHIST, io=io)
     # object history: earlier queries on both System objects (no wrap(): this clause keeps its own book of the cell
     # vectors every atom was moved by; one query per object and no r0(), to keep this cheap clause cheap - the other
     # clauses run the full lists); the deformed object may first exist as the reference crystal / half-way state
@@ -833,13 +1240,32 @@ def oracle_displacement(case):
     if hist['decoy']:
         run_decoy(am, False)
         labels.add('decoy')
-    got = call()
+    storage_labels(s0, labels, 0)
+    if storage_labels(s1, labels, 1) and 'stored_narrow0' in labels:
+        labels.add('stored_narrow_both')
+    led.add_system(s0, 'system_0')
+    led.add_system(s1, 'system_1')
+    out = led.add(call(), 'displacement')
+    got = led.snapshot('displacement') if isinstance(out, np.ndarray) else np.asarray(out)
+    # class A: later calls on the same pair, on the pair in swapped roles and (io.twin) on another pair of the same size;
+    # what the first call handed out is re-judged bit for bit at the end
+    led.add(am.displacement(s1, s0, box_reference='initial'), 'displacement(swapped)')
+    if io['twin']:
+        led.add(am.displacement(s0, s0), 'displacement(system_0, system_0)')
+        led.add(am.displacement(s1, s1, box_reference=None), 'displacement(system_1, system_1)')
+        labels.add('twin')
     if hist['repeat']:
         run_decoy(am, False)
-        again = call()
-        require(np.array_equal(np.asarray(again), np.asarray(got)), 'displacement() of the same two systems differs between two calls')
+        again = led.add(call(), 'displacement (second call)')
+        require(np.array_equal(np.asarray(again), got), 'displacement() of the same two systems differs between two calls')
         labels.add('repeat')
-    got = np.asarray(got)
+    led.verify(labels, 'after %d later displacement() calls' % (len(led.res) - 1))
+    if io['scribble']:
+        # class B: the caller overwrites the arrays it was handed, then asks again
+        if led.scribble(labels):
+            again = np.asarray(call())
+            require(_bits(again) == _bits(got), 'displacement() of the same two systems differs after the caller overwrote the arrays it '
+                    'had been handed by the earlier calls')
     require(got.shape == (r.natoms, 3) and np.all(np.isfinite(got)), lambda: 'displacement returned shape %r' % (got.shape,))
     raw = pos1 - r.pos
     scale = amax(r.pos) + amax(pos1) + amax(vects1)
@@ -849,8 +1275,12 @@ def oracle_displacement(case):
     if np.any(shift != 0):
         labels.add('rewrapped')
     if br == 'none':
-        err = amax(got - raw)
-        require(err <= tol, lambda: 'displacement(box_reference=None) differs from pos1 - pos0 by %.3g' % err)
+        # "None computes the straight difference between the positions": judged in the precision of numpy's result type of
+        # that difference (single precision when BOTH systems store single-precision positions, as in C02)
+        rt = np.result_type(s0.atoms.pos.dtype, s1.atoms.pos.dtype)
+        err = amax(np.asarray(got, dtype=float) - raw)
+        require(err <= tol + (4 * float(np.finfo(rt).eps) * scale if (rt.kind == 'f' and rt.itemsize < 8) else 0.0),
+                lambda: 'displacement(box_reference=None) differs from pos1 - pos0 by %.3g' % err)
         return labels | {'nt'} if ('rewrapped' in labels and (r.reoriented or r.twotype)) else labels
     Vsel, psel = (r.vects, pbc) if br == 'initial' else (vects1, pbc1)
     same_box = amax(vects1 - r.vects) == 0.0
@@ -863,6 +1293,24 @@ def oracle_displacement(case):
     #     dvect documents to compare (at most one cell vector per axis)
     direct = ((ulen < 0.45 * wmin) & (same_box or br != 'initial') & (np.abs(shift).max(axis=1) <= 1)
               & (np.abs(shift[:, npsel]).sum(axis=1) == 0))
+    if mode == 'decades' and direct.any():
+        # class F: every row relative to its own magnitude (as far as the rounding of the coordinates allows), and equal
+        # to the call on the one-atom systems
+        rowtol = 64 * DR.EPS * scale + 1e-9 * ulen
+        err = np.abs(got - u).max(axis=1)
+        bad = np.nonzero(direct & (err > rowtol))[0]
+        require(len(bad) == 0, lambda: 'displacement(%s) of atom %d in a call whose rows span %d decades is %r, imposed displacement %r '
+                '(error %.3g, |u| = %.3g)' % (br, bad[0], case['ndec'], got[bad[0]].tolist(), u[bad[0]].tolist(), err[bad[0]], ulen[bad[0]]))
+        for i in sorted({int(k) for k in np.nonzero(direct)[0][[0, len(np.nonzero(direct)[0]) // 2, -1]]}):
+            # (the coordinates the two System objects hold: an in-place route may have re-derived them from relative ones)
+            a0 = mk_system(np.asarray(s0.atoms.pos, dtype=float)[i:i + 1], r.atype[i:i + 1], r.vects, r.origin, pbc)
+            a1 = mk_system(np.asarray(s1.atoms.pos, dtype=float)[i:i + 1], r.atype[i:i + 1], vects1, origin1, pbc1)
+            one = np.asarray(am.displacement(a0, a1) if br == 'default' else am.displacement(a0, a1, box_reference=br))
+            require(one.shape == (1, 3) and np.array_equal(one[0], got[i]),
+                    lambda: 'displacement(%s): row %d of the %d-atom call is %r, the call on that atom alone returns %r'
+                    % (br, i, r.natoms, got[i].tolist(), one.tolist()))
+        if np.log10(max(ulen[direct].max(), 1e-300) / max(ulen[direct][ulen[direct] > 0].min(), 1e-300)) >= 8:
+            labels.add('decades')
     if direct.any():
         err = np.abs(got[direct] - u[direct]).max(axis=1)
         bad = np.nonzero(err > tol)[0]
@@ -948,6 +1396,8 @@ def oracle_strain(case):
     import atomman as am
     unit_labels = set()
     xt, S = unit_xtal(case, unit_labels)
+    io = case.get('io') or NOIO
+    led = Ledger()
     refmode = case['refmode']
     pbc = [bool(x) for x in case['pbc']]
     if refmode == 'subset':
@@ -958,8 +1408,10 @@ def oracle_strain(case):
         # the current list must reach beyond the reference set
         sh = dict(sh, gap=1 + sh['gap'] % (len(gaps) - 1))
         rc, dnn, kgap, gaps = choose_cutoff(xt, sh, 0.045, 1.12, True)
+    if io['scal'] & 1:
+        rc = float(np.float32(rc))          # the cutoff IS this single-precision number (handed over as numpy.float32 below)
     F, hasrot, hasE = gradient(case['F'])
-    hist = case.get('hist') or NOHIST
+    hist = dict(case.get('hist') or NOHIST, io=io)
     shist = case.get('shist')
     smode = shist['mode'] if shist else None
     # largest displacement difference over a neighbour pair: |F - I| * rc
@@ -969,6 +1421,9 @@ def oracle_strain(case):
         dF = max(dF, np.linalg.norm(FA - I3, 2))
     r = build_ref(xt, 2.2 * 1.04 * (rc * (1 + dF) + 0.05 * dnn))
     labels = xtal_labels(r) | {'ref_' + refmode, 'nbr_' + case['nbrmode'], 'gap%d' % kgap} | unit_labels
+    labels |= gradient_labels(case['F'])
+    if any(abs(x) in (1e-3, 1e-6, 1e-9, 1e-12) for x in case['move']['boxshift']):
+        labels.add('near_face')
     pos1, vects1, origin1, u, shift = deform(r, F, case['move'], pbc)
     s0, kept0, _ = make_reference(am, hist, r, pbc, xt, rc, labels, True)
     if not kept0:
@@ -1002,13 +1457,18 @@ def oracle_strain(case):
         refmode = 'peratom'                     # two inequivalent sites: no single list
     if refmode == 'base':
         pass
-    elif refmode == 'peratom':
+    elif refmode in ('peratom', 'peratom_axes'):
         # full (infinite-crystal) neighbour set of every atom, from my enumeration with all axes periodic
         If, Jf, Df, _ = pair_table(r.pos, r.vects, [True, True, True], rc)
         perf = group_by_atom(N, If, Jf, Df)
         cnt = {len(v) for _, v in perf}
         assert len(cnt) == 1
         pv = [np.array(v) for _, v in perf]
+        if refmode == 'peratom_axes':
+            # (enumerated clause only) the per-atom lists in the crystal frame together with the axes option: p_sys = A p_c
+            pv = [v @ r.A for v in pv]
+            wrap_axes = r.A.copy()
+            labels.add('axes_given')
         if xt['perm'] % 2:
             pv = np.array(pv)
     elif refmode in ('single', 'axes', 'subset'):
@@ -1026,7 +1486,7 @@ def oracle_strain(case):
             uv = r.uv
             orth = uv is not None and np.allclose(np.array(uv) @ np.array(uv).T, np.diag(np.diag(np.array(uv) @ np.array(uv).T)))
             if xt['rot'] is None and orth:
-                wrap_axes = np.array(uv)
+                wrap_axes = np.rint(SPERMS[r.sperm] @ np.array(uv)).astype(int)
                 labels.add('axes_int')
             else:
                 wrap_axes = r.A.copy()
@@ -1058,14 +1518,53 @@ def oracle_strain(case):
     forms = hist['forms']
     nbrmode = case['nbrmode']
     rcv = np.float64(rc) if forms & 1 else rc
+    if io['scal'] & 1:
+        rcv = np.float32(rc)
+        labels.add('cutoff_f32')
     if forms & 2 and 'theta_max' in kw and float(kw['theta_max']).is_integer():
         kw['theta_max'] = int(kw['theta_max'])
         labels.add('theta_int')
+    if io['scal'] & 2 and 'theta_max' in kw:
+        # numpy scalars of other dtypes (class C): int16 for whole numbers, float32 where exact, else float64
+        t = kw['theta_max']
+        kw['theta_max'] = np.int16(t) if float(t).is_integer() else (np.float32(t) if float(np.float32(t)) == float(t) else np.float64(t))
+        labels.add('theta_npscalar')
+    ddref = case['ddref']
+    if io['scal'] & 4:
+        ddref = [np.uint8, np.int8, np.int64, bool][(io['scal'] >> 3) + 2 * (io['idt'] % 2)](ddref)
+        labels.add('ref_scalar')
     pvform = (forms >> 2) & 3
     if pv is not None and pvform:
         # nested lists / Fortran-ordered / read-only arrays ("array-like object")
         pv = [input_form(x, pvform) for x in pv] if isinstance(pv, list) else input_form(pv, pvform)
         labels.add('pv_form%d' % pvform)
+    elif pv is not None and io['adt'] % 7 >= 4:
+        # strided views / big-endian / narrowest exact dtype (class C)
+        pv = [spell(x, io['adt']) for x in pv] if isinstance(pv, list) else spell(pv, io['adt'])
+        labels.add('pv_adt%d' % (io['adt'] % 7))
+        if any(a.dtype != np.dtype(float) for _, a in _leaves(pv, 'pv')):
+            labels.add('pv_dtype')
+    if wrap_axes is not None and io['adt'] % 7:
+        wrap_axes = spell(wrap_axes, io['adt'], labels)
+    # class B: the caller's own copy of what it hands in (same spelling, separate memory); `pv` itself is what the Strain
+    # object is given and - with io.scribble - what the caller overwrites / re-uses once the object has been set up
+    pv_keep = copy.deepcopy(pv)
+    axes_keep = copy.deepcopy(wrap_axes)
+    pv_view_class = isinstance(pv, np.ndarray) and single_list and wrap_axes is None and pv.flags.writeable
+    reused = []
+
+    def caller_reuses():
+        """after the object has been given its reference vectors: they are unchanged; then the caller re-uses its buffers"""
+        if pv is None:
+            return
+        require(Ledger._same(pv, pv_keep) and Ledger._same(wrap_axes, axes_keep), 'Strain / set_p_vectors changed the p_vectors or axes it was given')
+        if io['scribble'] and not reused:
+            n = sum(scribble(a) for _, a in _leaves(pv, 'pv')) + (scribble(wrap_axes) if isinstance(wrap_axes, np.ndarray) else 0)
+            reused.append(n)
+            if n:
+                labels.add('pv_reused')
+                if pv_view_class:
+                    labels.add('pv_reused_single_ndarray')
 
     def map_pv(pvec, M):
         return [np.asarray(x, dtype=float) @ M.T for x in pvec] if isinstance(pvec, list) else np.asarray(pvec, dtype=float) @ M.T
@@ -1098,10 +1597,10 @@ def oracle_strain(case):
 
     def read_prop(st, name):
         if name == 'asdict':
-            return st.asdict()
+            return led.add(st.asdict(), 'earlier state: Strain.asdict()')
         if name == 'save':
             return st.save_to_system(['strain', 'invariant1', 'angularvelocity'])
-        return np.array(getattr(st, name))
+        return np.array(led.add(getattr(st, name), 'earlier state: Strain.' + name))
 
     def stage0(st, G0x, judged):
         """the earlier state of the object: the drawn properties are read (so that they are held by the object when its
@@ -1160,10 +1659,16 @@ def oracle_strain(case):
             # the periodicity stays: the lists made in the earlier state are the lists of the judged state only then
             hist1 = dict(hist, build1=dict(shist['build'], pbcflip=False))
             s1, kept1, _ = make_current(am, hist1, r, (posA, vectsA, originA), pos1, vects1, origin1, pbc, xt, rc, labels, True, while_A)
+            if 'st' in pre:
+                caller_reuses()
         else:
             s1, kept1, _ = make_current(am, hist, r, None, pos1, vects1, origin1, pbc, xt, rc, labels, True)
         if not kept1:
             return labels | {'box_zeroed_skip'}
+        storage_labels(s0, labels, 0)
+        storage_labels(s1, labels, 1)
+        led.add_system(s0, 'reference system')
+        led.add_system(s1, 'analysed system')
         Gx, e, w, i1, i2, i3, av = expected_strain(F)
         with warnings.catch_warnings():
             warnings.simplefilter('ignore')
@@ -1201,13 +1706,16 @@ def oracle_strain(case):
                         st.build_p_vectors(sb)
                 else:
                     st.set_p_vectors(pv, axes=wrap_axes)
+                    caller_reuses()
             elif smode == 'theta':
                 # an angle window below every p-q angle first (no pairs: G = identity, documented warning), then the real one
                 st, nl1, nl0 = new_strain(s1, base, pv, dict(kw, theta_max=0.02))
+                caller_reuses()
                 with strain_guard(single_list and wrap_axes is None, few):
                     stage0(st, None, False)
             else:
                 st, nl1, nl0 = new_strain(s1, base, pv, kw)
+                caller_reuses()          # (the object solves on first access: nothing has been computed yet)
             if smode:
                 if hist['decoy']:
                     run_decoy(am)
@@ -1235,7 +1743,11 @@ def oracle_strain(case):
             # violation is kept and raised after everything that does not depend on the class has been judged
             pending = None
             names = ['G', 'strain', 'rotation', 'invariant1', 'invariant2', 'invariant3', 'angularvelocity', 'nye']
-            if case.get('order'):
+            if case.get('names'):
+                # (enumerated clause) the first properties to be read, in this order; the others follow
+                names = list(case['names']) + [k for k in names if k not in case['names']]
+                labels.add('derived_read_first')
+            elif case.get('order'):
                 names = [names[k] for k in DR.permutation(len(names), case['order'])]
                 if names[0] != 'G':
                     labels.add('derived_read_first')
@@ -1243,7 +1755,7 @@ def oracle_strain(case):
             try:
                 with strain_guard(single_list and wrap_axes is None, few):
                     for k in names:
-                        res[k] = np.array(getattr(st, k))
+                        res[k] = np.array(led.add(getattr(st, k), 'Strain.' + k))
             except Violation as v:
                 if v.key not in (KEY_READONLY, KEY_ONENBR):
                     raise
@@ -1252,7 +1764,16 @@ def oracle_strain(case):
                 Gg = res['G']
                 dct = st.asdict()
     if pending is None:
-        _judge_class(N, Gg, res, dct, Gx, e, w, i1, i2, i3, av, good, goodnb, per, S)
+        try:
+            _judge_class(N, Gg, res, dct, Gx, e, w, i1, i2, i3, av, good, goodnb, per, S)
+        except Violation as v:
+            if not (v.key is None and pv_view_class and reused and reused[0]):
+                raise
+            # open finding: the object holds a view of the caller's array and solves lazily
+            pending = Violation('Strain(system, p_vectors=<one list of p vectors as a writable ndarray>) without axes keeps a view of the '
+                                'caller\'s array (numpy.broadcast_to) and solves on first access: after the caller overwrote / re-used its array '
+                                'the object answers for other reference vectors: %s' % v.detail[:300], key=KEY_PV_VIEW)
+    if pending is None:
         if case.get('order', 0) % 3 == 0:
             st.save_to_system()
             for k in ('strain', 'invariant1', 'invariant2', 'invariant3', 'angularvelocity', 'nye'):
@@ -1264,10 +1785,12 @@ def oracle_strain(case):
         if refmode == 'base':
             pw = [np.array(x, dtype=float) for x in st.p_vectors]
         else:
-            pw = pv
+            pw = copy.deepcopy(pv_keep)
         wkw = dict(kw)
         if wrap_axes is not None:
-            wkw['axes'] = wrap_axes
+            wkw['axes'] = copy.deepcopy(axes_keep)
+            led.add_input(wkw['axes'], 'axes of nye_tensor()')
+        led.add_input(pw, 'p_vectors of nye_tensor()')
         with warnings.catch_warnings():
             warnings.simplefilter('ignore')
             if hist['decoy']:
@@ -1279,6 +1802,7 @@ def oracle_strain(case):
                 out = am.defect.nye_tensor(s1, pw, **wkw)
             else:
                 out = am.defect.nye_tensor(s1, pw, cutoff=rcv, **wkw)
+        led.add(out, 'nye_tensor()')
         for key, exp, msk in (('strain', e, good), ('strain_invariant_1', i1, good), ('strain_invariant_2', i2, good),
                               ('strain_invariant_3', i3, good), ('angular_velocity', av, good),
                               ('Nye_tensor', np.zeros((3, 3)), goodnb)):
@@ -1294,8 +1818,10 @@ def oracle_strain(case):
         warnings.simplefilter('ignore')
         # under a homogeneous deformation both systems (and the earlier state of system1) have the same pairs: a stored
         # list stays the reference system's list
-        dd = make_dd(am, s0, s1, case['ddref'], case.get('ddlazy', 0), other=other_cutoff(xt, rc, case.get('order', 0), 0.5)[0],
+        dd = make_dd(am, s0, s1, ddref, case.get('ddlazy', 0), other=other_cutoff(xt, rc, case.get('order', 0), 0.5)[0],
                      pre=pre.get('dd'), reusable=True, cutoff=rcv)
+    require(dd.reference == case['ddref'], lambda: 'DifferentialDisplacement.reference is %r after reference=%r' % (dd.reference, ddref))
+    led.add((dd.ddvectors, dd.arrowcenters, dd.arrowuvectors), 'DifferentialDisplacement arrays')
     if case.get('ddlazy', 0) >= 3:
         labels.add('dd_resolved')
     Il, Jl = nlist_pairs(dd.neighbors, N)
@@ -1321,6 +1847,23 @@ def oracle_strain(case):
         labels.add('F_strain')
     if theta is not None:
         labels.add('theta_given')
+    if io['twin'] and not few:
+        # class A: the same tools afterwards on another pair of systems of the SAME size (the reference crystal analysed
+        # against itself: G = 1, everything else zero)
+        with warnings.catch_warnings():
+            warnings.simplefilter('ignore')
+            tw = am.defect.Strain(s0, cutoff=rcv, basesystem=s0, **kw)
+            tres = {k: np.array(led.add(getattr(tw, k), 'second object: Strain.' + k)) for k in reversed(names)}
+            tdd = am.defect.DifferentialDisplacement(s0, s0, cutoff=rcv, reference=1 - case['ddref'])
+            led.add((tdd.ddvectors, tdd.arrowcenters, tdd.arrowuvectors), 'second object: DifferentialDisplacement arrays')
+        for k, exp, msk in (('G', I3, good), ('strain', 0.0, good), ('rotation', 0.0, good), ('nye', 0.0, goodnb)):
+            err = np.abs(tres[k] - exp).reshape(N, -1).max(axis=1)
+            bad = np.nonzero(msk & ~(err <= (TOL / S if k == 'nye' else TOL)))[0]
+            require(len(bad) == 0, lambda: 'Strain of the reference crystal against itself (second object of the case): %s of atom %d is off by %.3g'
+                    % (k, bad[0], err[bad[0]]))
+        require(amax(tdd.ddvectors) <= TOL * S, 'DifferentialDisplacement of the reference crystal against itself is not zero')
+        labels.add('twin')
+    led.verify(labels, 'end of the case')
     if pending is not None:
         raise pending
     return labels
@@ -1328,19 +1871,23 @@ def oracle_strain(case):
 
 # ----------------------------------------------------------------------------- slip
 
-def _dd_check(am, what, s0, s1, r, pos1, pbc, rc, u, reference, nbrmode, labels, lazy=0, pos0=None, other=None, pre=None, reusable=False):
+def _dd_check(am, what, s0, s1, r, pos1, pbc, rc, u, reference, nbrmode, labels, lazy=0, pos0=None, other=None, pre=None, reusable=False,
+              refarg=None, led=None):
     """DifferentialDisplacement on (s0, s1): per listed pair u_j - u_i, centres and directions in the reference system
-    (pos0 / pos1: the positions the two System objects hold now)"""
+    (pos0 / pos1: the positions the two System objects hold now; refarg: the reference handed over as a numpy scalar / bool)"""
     N = r.natoms
     refpos = (r.pos if pos0 is None else pos0) if reference == 0 else pos1
+    refarg = reference if refarg is None else refarg
     with warnings.catch_warnings():
         warnings.simplefilter('ignore')
         if nbrmode == 'neighbors':
             nl = am.NeighborList(system=s0 if reference == 0 else s1, cutoff=rc)
-            dd = make_dd(am, s0, s1, reference, lazy, other=other, pre=pre, reusable=reusable, neighbors=nl)
+            dd = make_dd(am, s0, s1, refarg, lazy, other=other, pre=pre, reusable=reusable, neighbors=nl)
         else:
-            dd = make_dd(am, s0, s1, reference, lazy, other=other, pre=pre, reusable=reusable, cutoff=rc)
+            dd = make_dd(am, s0, s1, refarg, lazy, other=other, pre=pre, reusable=reusable, cutoff=rc)
     require(dd.reference == reference, lambda: '%s: reference is %r' % (what, dd.reference))
+    if led is not None:
+        led.add((dd.ddvectors, dd.arrowcenters, dd.arrowuvectors), what)
     Il, Jl = nlist_pairs(dd.neighbors, N)
     band = 1e-7 * rc
     Ia, Ja, _, _ = pair_table(refpos, r.vects, pbc, rc - band)
@@ -1374,17 +1921,24 @@ def _dd_check(am, what, s0, s1, r, pos1, pbc, rc, u, reference, nbrmode, labels,
     return dd, Il, Jl
 
 
-def _disreg_check(am, what, s0, s1, r, sd, m_angle, n_flip, ofs, pos0=None, aslists=False):
+def _disreg_check(am, what, s0, s1, r, sd, m_angle, n_flip, ofs, pos0=None, aslists=False, adt=0, led=None, labels=None):
     nrm, x1, x2 = sd['nrm'], sd['x1'], sd['x2']
     a = math.radians(m_angle)
     m = math.cos(a) * x1 + math.sin(a) * x2
     n = -nrm if n_flip else nrm
     planepos = r.origin + sd['mid'] * nrm + (ofs[0] * r.S) * x1 + (ofs[1] * r.S) * x2
     if aslists:
-        coord, dr = am.defect.disregistry(s0, s1, m=m.tolist(), n=tuple(n.tolist()), planepos=planepos.tolist())
+        args = dict(m=m.tolist(), n=tuple(n.tolist()), planepos=planepos.tolist())
     else:
-        coord, dr = am.defect.disregistry(s0, s1, m=m, n=n, planepos=planepos)
-    coord, dr = np.asarray(coord), np.asarray(dr)
+        # class C: the three vectors in another spelling of the same numbers (strided, big-endian, read-only, narrow dtype ...)
+        args = dict(m=spell(m, adt, labels), n=spell(n, adt + (1 if adt else 0), labels), planepos=spell(planepos, adt, labels))
+    if led is not None:
+        for k in sorted(args):
+            led.add_input(args[k], '%s argument %s' % (what, k))
+    out = am.defect.disregistry(s0, s1, **args)
+    if led is not None:
+        led.add(out, what)
+    coord, dr = np.array(out[0]), np.array(out[1])
     require(coord.ndim == 1 and dr.shape == (len(coord), 3), lambda: '%s: shapes %r %r' % (what, coord.shape, dr.shape))
     adj = (sd['lay'] == sd['g']) | (sd['lay'] == sd['g'] + 1)
     mine = np.sort((r.pos if pos0 is None else pos0)[adj] @ m)
@@ -1409,15 +1963,26 @@ def oracle_slip(case):
     sl = case['slip']
     unit_labels = set()
     xt, S = unit_xtal(case, unit_labels)
+    io = case.get('io') or NOIO
+    led = Ledger()
     rc, dnn, kgap, _ = choose_cutoff(xt, case['shells'], 0.01, 1.05, False)
+    if io['scal'] & 1:
+        rc = float(np.float32(rc))          # the cutoff IS this single-precision number
     r = build_ref(xt, 2.2 * (rc + 0.45 * dnn))
     sd = slip_setup(r, sl, dnn)
     pbc = sd['pbc']
-    labels = xtal_labels(r) | {'gap%d' % kgap, 'cut%d' % sd['cut']} | unit_labels
+    labels = xtal_labels(r) | {'gap%d' % kgap, 'cut%d' % sd['cut']} | unit_labels | slip_labels(case)
     pos1, origin1, shift = slipped(r, sd, sl)
-    hist = case.get('hist') or NOHIST
+    hist = dict(case.get('hist') or NOHIST, io=io)
     forms = hist['forms']
     rcv = np.float64(rc) if forms & 1 else rc
+    if io['scal'] & 1:
+        rcv = np.float32(rc)
+        labels.add('cutoff_f32')
+    refarg = case['ddref']
+    if io['scal'] & 4:
+        refarg = [np.uint8, np.int8, np.int64, bool][(io['scal'] >> 3) + 2 * (io['idt'] % 2)](refarg)
+        labels.add('ref_scalar')
     lazy = case.get('ddlazy', 0)
     N = r.natoms
     u, upper = sd['u'], sd['upper']
@@ -1428,7 +1993,7 @@ def oracle_slip(case):
     stateA = (r.pos, r.vects, r.origin)
     if hist['build1'] and hist['build1']['state'] == 'other':
         stateA = (r.pos - 0.5 * u, r.vects, r.origin)           # the opposite slip, not wrapped
-    s1, _, finish1 = staged_system(am, hist['build1'], hist['ops1'], hist['intpos'], r.atype, stateA, (pos1, r.vects, origin1, pbc),
+    s1, _, finish1 = staged_system(am, hist['build1'], hist['ops1'], (hist['intpos'], hist.get('io'), None), r.atype, stateA, (pos1, r.vects, origin1, pbc),
                                    xt, rc, labels, True, 'deformed system')
     pre = {}
     if lazy == 5 and (hist['build1'] or hist.get('build0')):
@@ -1444,6 +2009,9 @@ def oracle_slip(case):
     reusable = case['ddref'] == 0 and not (b0 and b0['pbcflip'])
     if not (kept0 and kept1):
         return labels | {'box_zeroed_skip'}
+    narrow0, narrow1 = storage_labels(s0, labels, 0), storage_labels(s1, labels, 1)
+    led.add_system(s0, 'system_0')
+    led.add_system(s1, 'system_1')
     I0, J0, D0, L0 = pair_table(r.pos, r.vects, pbc, rc)
     # ---- slip vector
     across = upper[I0] != upper[J0]
@@ -1451,27 +2019,43 @@ def oracle_slip(case):
     rel = np.where(upper[:, None], sd['u_up'] - sd['u_low'], sd['u_low'] - sd['u_up'])
     exp_sv = nacross[:, None] * rel
 
-    def call_sv():
+    def call_sv(what=None):
         with warnings.catch_warnings():
             warnings.simplefilter('ignore')
             if case['svnbr'] == 'neighbors':
-                return am.defect.slip_vector(s0, s1, neighbors=am.NeighborList(system=s0, cutoff=rcv))
-            if case['svnbr'] == 'attr':
+                out = am.defect.slip_vector(s0, s1, neighbors=am.NeighborList(system=s0, cutoff=rcv))
+            elif case['svnbr'] == 'attr':
                 # documented third route: "or system_0 must have a neighbors attribute"
                 s0.neighbors = am.NeighborList(system=s0, cutoff=rcv)
-                return am.defect.slip_vector(s0, s1)
-            return am.defect.slip_vector(s0, s1, cutoff=rcv)
+                out = am.defect.slip_vector(s0, s1)
+            else:
+                out = am.defect.slip_vector(s0, s1, cutoff=rcv)
+        return led.add(out, what) if what else out
     if hist['decoy']:
         run_decoy(am)
         labels.add('decoy')
-    sv = np.asarray(call_sv())
+    # open finding KEY_SV_DTYPE: slip_vector hands the position arrays of the two systems to a Cython kernel typed
+    # `const double[:,:]` as they are stored; Atoms keeps half / single precision and big-endian positions (every other tool
+    # of this property converts).  The rest of the case is judged; the keyed violation is raised at the end.
+    pending_sv = None
+    try:
+        sv = np.array(call_sv('slip_vector'))
+    except ValueError as e:
+        if not ((narrow0 or narrow1) and ('uffer' in str(e))):
+            raise
+        pending_sv = Violation('slip_vector(system_0, system_1) raises ValueError(%s) for systems whose positions are stored as %s / %s '
+                               '(Atoms keeps the floating dtype it is given; displacement, NeighborList, Strain, disregistry and '
+                               'DifferentialDisplacement accept the same systems)' % (str(e)[:120], s0.atoms.pos.dtype, s1.atoms.pos.dtype),
+                               key=KEY_SV_DTYPE)
+        sv = None
     labels.add('sv_' + case['svnbr'])
-    require(sv.shape == (N, 3), lambda: 'slip_vector returned shape %r' % (sv.shape,))
-    tol = TOL * S + 64 * DR.EPS * (amax(pos1) + amax(r.pos)) * max(1, nacross.max())
-    err = np.abs(sv - exp_sv).max(axis=1)
-    k = int(np.argmax(err))
-    require(err[k] <= tol, lambda: 'slip vector of atom %d (%s half, %d neighbours across the plane) is %r, expected %d x %r'
-            % (k, 'upper' if upper[k] else 'lower', nacross[k], sv[k].tolist(), nacross[k], rel[k].tolist()))
+    if sv is not None:
+        require(sv.shape == (N, 3), lambda: 'slip_vector returned shape %r' % (sv.shape,))
+        tol = TOL * S + 64 * DR.EPS * (amax(pos1) + amax(r.pos)) * max(1, nacross.max())
+        err = np.abs(sv - exp_sv).max(axis=1)
+        k = int(np.argmax(err))
+        require(err[k] <= tol, lambda: 'slip vector of atom %d (%s half, %d neighbours across the plane) is %r, expected %d x %r'
+                % (k, 'upper' if upper[k] else 'lower', nacross[k], sv[k].tolist(), nacross[k], rel[k].tolist()))
     if (nacross == 0).any():
         labels.add('atoms_away_from_plane')
     if nacross[upper].any() and nacross[~upper].any():
@@ -1484,7 +2068,8 @@ def oracle_slip(case):
     blocked = disreg_blocked(sd, pos0)
     try:
         with disreg_guard(blocked, S):
-            cd, dr = _disreg_check(am, what_dr, s0, s1, r, sd, case['m_angle'], case['n_flip'], case['plane_ofs'], pos0, bool(forms & 2))
+            cd, dr = _disreg_check(am, what_dr, s0, s1, r, sd, case['m_angle'], case['n_flip'], case['plane_ofs'], pos0, bool(forms & 2),
+                                   io['adt'], led, labels)
     except Violation as v:
         if v.key != KEY_DISREG_UNIT:
             raise
@@ -1494,18 +2079,35 @@ def oracle_slip(case):
         run_decoy(am)
     oc, _ = other_cutoff(xt, rc, sl['layer'], sl['frac'])
     _dd_check(am, 'DifferentialDisplacement(reference=%d, %s, construction %d)' % (case['ddref'], case['ddnbr'], lazy),
-              s0, s1, r, pos1, pbc, rc, u, case['ddref'], case['ddnbr'], labels, lazy, pos0, oc, pre.get('dd'), reusable)
+              s0, s1, r, pos1, pbc, rc, u, case['ddref'], case['ddnbr'], labels, lazy, pos0, oc, pre.get('dd'), reusable, refarg, led)
     if lazy:
         labels.add('dd_solve_later')
     if lazy >= 3:
         labels.add('dd_resolved')
     labels.add('ddref%d' % case['ddref'])
+    if io['twin']:
+        # class A: the same tools afterwards on another pair of systems of the SAME size (the reference against itself:
+        # every result zero); what the earlier calls handed out is re-judged bit for bit at the end of the case
+        with warnings.catch_warnings():
+            warnings.simplefilter('ignore')
+            if pending_sv is None:
+                z = led.add(am.defect.slip_vector(s0, s0, cutoff=rcv), 'slip_vector(system_0, system_0)')
+                require(amax(z) <= TOL * S, 'slip_vector of the reference crystal against itself is not zero')
+            if pending is None:
+                _, zd = _disreg_check(am, 'disregistry(system_0, system_0)', s0, s0, r, dict(sd, u_up=0.0 * sd['u_up'], u_low=0.0 * sd['u_low']),
+                                      case['m_angle'], case['n_flip'], case['plane_ofs'], pos0, False, 0, led, None)
+            tdd = am.defect.DifferentialDisplacement(s0, s0, cutoff=rcv, reference=0)
+            led.add((tdd.ddvectors, tdd.arrowcenters, tdd.arrowuvectors), 'DifferentialDisplacement(system_0, system_0)')
+            require(amax(tdd.ddvectors) <= TOL * S, 'DifferentialDisplacement of the reference crystal against itself is not zero')
+        labels.add('twin')
     if hist['repeat']:
         # the same calls once more in the same process, after everything else ran on the same objects
-        sv2 = np.asarray(call_sv())
-        require(np.array_equal(sv2, sv), 'slip_vector() of the same two systems differs between two calls')
+        if sv is not None:
+            sv2 = np.asarray(call_sv('slip_vector (second call)'))
+            require(np.array_equal(sv2, sv), 'slip_vector() of the same two systems differs between two calls')
         if pending is None:
-            cd2, dr2 = _disreg_check(am, what_dr + ' (second call)', s0, s1, r, sd, case['m_angle'], case['n_flip'], case['plane_ofs'], pos0, False)
+            cd2, dr2 = _disreg_check(am, what_dr + ' (second call)', s0, s1, r, sd, case['m_angle'], case['n_flip'], case['plane_ofs'], pos0, False,
+                                     0, led, None)
             require(np.array_equal(cd2, cd) and np.array_equal(dr2, dr), 'disregistry() of the same two systems differs between two calls')
         labels.add('repeat')
     # ---- Nye tensor on a non-uniform G: class, function and -curl G must agree
@@ -1517,13 +2119,14 @@ def oracle_slip(case):
             I1, _, _, _ = pair_table(pos1, r.vects, pbc, rc)
             few = bool(np.any(np.bincount(I0, minlength=N) < 2) or np.any(np.bincount(I1, minlength=N) < 2))
             with strain_guard(False, few):
-                Gg = np.array(st.G)
-            nyeC = np.array(st.nye)
-            strC = np.array(st.strain)
+                Gg = np.array(led.add(st.G, 'Strain.G'))
+            nyeC = np.array(led.add(st.nye, 'Strain.nye'))
+            strC = np.array(led.add(st.strain, 'Strain.strain'))
             if few:
                 out = None          # the function form needs at least one reference vector per atom
             else:
-                out = am.defect.nye_tensor(s1, [np.array(x, dtype=float).reshape(-1, 3) for x in st.p_vectors], cutoff=rc, **kw)
+                pw = led.add_input([np.array(x, dtype=float).reshape(-1, 3) for x in st.p_vectors], 'p_vectors of nye_tensor()')
+                out = led.add(am.defect.nye_tensor(s1, pw, cutoff=rc, **kw), 'nye_tensor()')
         sc = max(1.0 / S, amax(nyeC))          # 1/length
         # class and function may only be compared where the matching is not decided by a tie (see match_stable)
         if out is not None:
@@ -1576,36 +2179,81 @@ def oracle_slip(case):
         labels.add('rewrapped')
     if 0.0 < sl['split'] < 1.0:
         labels.add('both_halves_move')
+    led.verify(labels, 'end of the case')
+    if io['scribble'] and led.scribble(labels):
+        # class B: the caller overwrites every array it was handed and every array it handed in (m, n, planepos, p vectors),
+        # then asks again: the answers are those of the first calls
+        if sv is not None:
+            require(_bits(np.asarray(call_sv())) == _bits(sv), 'slip_vector() of the same two systems differs after the caller overwrote the '
+                    'arrays the earlier calls had handed out')
+        if pending is None:
+            cd3, dr3 = _disreg_check(am, what_dr + ' (after the caller re-used its arrays)', s0, s1, r, sd, case['m_angle'], case['n_flip'],
+                                     case['plane_ofs'], pos0, bool(forms & 2), io['adt'])
+            require(_bits(cd3) == _bits(cd) and _bits(dr3) == _bits(dr), 'disregistry() of the same two systems differs after the caller '
+                    'overwrote the arrays it had handed in / been handed by the earlier calls')
+    if pending_sv is not None:
+        raise pending_sv
     if pending is not None:
         raise pending
     return labels
 
 
+def slip_labels(case):
+    """class E: almost no slip, a slip / an m direction almost along a special direction, a plane almost at an atomic layer"""
+    labs = set()
+    sl = case['slip']
+    if sl['mag'] <= 1e-3:
+        labs.add('tiny_slip')
+    if sl['frac'] <= 1e-3 or sl['frac'] >= 1.0 - 1e-3:
+        labs.add('plane_near_atoms')
+    for name, ang in (('slip_near_axis', sl['angle']), ('m_near_axis', case.get('m_angle'))):
+        if ang is not None:
+            d = min(abs(ang - b) for b in (0.0, 45.0, 60.0, 90.0, 180.0, 270.0, 360.0))
+            if 0.0 < d <= 2e-3:
+                labs.add(name)
+    if any(abs(x) in (1e-3, 1e-6, 1e-9, 1e-12) for x in sl['boxshift']):
+        labs.add('near_face')
+    if labs:
+        labs.add('near_threshold')
+    return labs
+
+
 # ----------------------------------------------------------------------------- invariance
 
-def _outputs(am, s0, s1, rc, theta, ddref, slipinfo, few, blocked=False, S=1.0):
-    """everything the property lists, computed by atomman on one pair of systems"""
+def _outputs(am, s0, s1, rc, theta, ddref, slipinfo, few, blocked=False, S=1.0, led=None, who=''):
+    """everything the property lists, computed by atomman on one pair of systems (the values are copies taken at return
+    time; the arrays handed out themselves go into the ledger)"""
     kw = {} if theta is None else {'theta_max': theta}
     out = {}
+    keep = (lambda raw, name: led.add(raw, who + name)) if led is not None else (lambda raw, name: raw)
     with warnings.catch_warnings():
         warnings.simplefilter('ignore')
-        out['disp'] = np.array(am.displacement(s0, s1))
+        out['disp'] = np.array(keep(am.displacement(s0, s1), 'displacement()'))
         st = am.defect.Strain(s1, cutoff=rc, basesystem=s0, **kw)
         with strain_guard(False, few):
-            out['G'] = np.array(st.G)
-        out['strain'] = np.array(st.strain)
-        out['rotation'] = np.array(st.rotation)
-        out['inv'] = np.stack([st.invariant1, st.invariant2, st.invariant3, st.angularvelocity], axis=1)
-        out['nye'] = np.array(st.nye)
+            out['G'] = np.array(keep(st.G, 'Strain.G'))
+        out['strain'] = np.array(keep(st.strain, 'Strain.strain'))
+        out['rotation'] = np.array(keep(st.rotation, 'Strain.rotation'))
+        out['inv'] = np.stack([keep(st.invariant1, 'Strain.invariant1'), keep(st.invariant2, 'Strain.invariant2'),
+                               keep(st.invariant3, 'Strain.invariant3'), keep(st.angularvelocity, 'Strain.angularvelocity')], axis=1)
+        out['nye'] = np.array(keep(st.nye, 'Strain.nye'))
         dd = am.defect.DifferentialDisplacement(s0, s1, cutoff=rc, reference=ddref)
         I, J = nlist_pairs(dd.neighbors, s0.natoms)
-        out['dd'] = (I, J, np.array(dd.ddvectors))
+        out['dd'] = (I, J, np.array(keep(dd.ddvectors, 'DifferentialDisplacement.ddvectors')))
+        keep((dd.arrowcenters, dd.arrowuvectors), 'DifferentialDisplacement arrows')
         if slipinfo is not None:
-            out['slip'] = np.array(am.defect.slip_vector(s0, s1, cutoff=rc))
+            try:
+                out['slip'] = np.array(keep(am.defect.slip_vector(s0, s1, cutoff=rc), 'slip_vector()'))
+            except ValueError as e:
+                if not ('uffer' in str(e) and (s0.atoms.pos.dtype != np.dtype(float) or s1.atoms.pos.dtype != np.dtype(float))):
+                    raise
+                out['slip'] = None
+                out['pending_sv'] = Violation('slip_vector(system_0, system_1) raises ValueError(%s) for systems whose positions are stored as '
+                                              '%s / %s' % (str(e)[:120], s0.atoms.pos.dtype, s1.atoms.pos.dtype), key=KEY_SV_DTYPE)
             m, n, pp = slipinfo
             try:
                 with disreg_guard(blocked, S):
-                    c, d = am.defect.disregistry(s0, s1, m=m, n=n, planepos=pp)
+                    c, d = keep(am.defect.disregistry(s0, s1, m=m, n=n, planepos=pp), 'disregistry()')
                 out['disreg'] = (np.array(c), np.array(d))
             except Violation as v:
                 if v.key != KEY_DISREG_UNIT:
@@ -1646,9 +2294,14 @@ def oracle_invariance(case):
     N = r.natoms
     # the first pair of System objects has been used before (earlier queries, stale 'neighbors' attributes, other
     # systems analysed in between); the transformed pair is fresh
-    hist = case.get('hist') or NOHIST
+    io = case.get('io') or NOIO
+    led = Ledger()
+    hist = dict(case.get('hist') or NOHIST, io=io)
+    labels |= gradient_labels(case['F']) if cfg == 'F' else slip_labels(case)
     s0, _, _ = make_reference(am, hist, r, pbc, xt, rc, labels, False)
     s1, _, _ = make_current(am, dict(hist, build1=None), r, None, pos1, vects1, origin1, pbc, xt, rc, labels, False)
+    storage_labels(s0, labels, 0)
+    storage_labels(s1, labels, 1)
     if hist['decoy']:
         run_decoy(am)
         labels.add('decoy')
@@ -1700,8 +2353,19 @@ def oracle_invariance(case):
     Ic, _, _, _ = pair_table(pos1, vects1, pbc, rc)
     few = bool(np.any(np.bincount(I0, minlength=N) < 2) or np.any(np.bincount(Ic, minlength=N) < 2))
     blocked = slipinfo is not None and disreg_blocked(sd, r.pos, p0)
-    A = _outputs(am, s0, s1, rc, case['theta'], case['ddref'], slipinfo, few, blocked, S)
-    B = _outputs(am, s0b, s1b, rc, case['theta'], case['ddref'], slipinfo_b, few, blocked, S)
+    for nm, sx in (('system_0', s0), ('system_1', s1), ('transformed system_0', s0b), ('transformed system_1', s1b)):
+        led.add_system(sx, nm)
+    for x in (slipinfo or ()) + (slipinfo_b or ()):
+        led.add_input(x, 'm / n / planepos of disregistry()')
+    # class A: everything the first pair's calls handed out is kept and re-judged bit for bit after the same tools ran on
+    # the transformed pair (same number of atoms, same array shapes) - and the other way round when io.twin
+    first, second = ((s0, s1, slipinfo, 'first pair: '), (s0b, s1b, slipinfo_b, 'transformed pair: '))
+    A = _outputs(am, first[0], first[1], rc, case['theta'], case['ddref'], first[2], few, blocked, S, led, first[3])
+    if io['twin']:
+        run_decoy(am)
+        labels.add('twin')
+    B = _outputs(am, second[0], second[1], rc, case['theta'], case['ddref'], second[2], few, blocked, S, led, second[3])
+    led.verify(labels, 'after the tools ran on the transformed pair of systems')
     scale = amax(p0) + amax(p1) + amax(r.pos) + amax(pos1)
     tol = 1e-8 * S + 256 * DR.EPS * scale                 # lengths
     tolD = tol / S                                        # dimensionless tensors; Nye (1/length): tolD / S
@@ -1718,7 +2382,7 @@ def oracle_invariance(case):
         near = allat
     keys = [('G', stable), ('strain', stable), ('rotation', stable), ('inv', stable), ('nye', stable_nb)]
     if slipinfo is not None:
-        keys += [('slip', allat), ('disp', near)]
+        keys += ([('slip', allat)] if A['slip'] is not None else []) + [('disp', near)]
     elif tm == 'origin':
         # under a homogeneous deformation the displacement field is not lattice periodic: moving a reference atom by a
         # cell vector changes its imposed displacement, so displacement() is only compared when nothing is re-wrapped
@@ -1782,31 +2446,54 @@ def oracle_invariance(case):
         labels.add('rewrapped')
     if case['perm2'] and (amax(t_at0) > 0 or amax(t_cell) > 0):
         labels.add('nt')
+    if A.get('pending_sv') is not None:
+        raise A['pending_sv']
     if pending is not None:
         raise pending
     return labels
 
 
+# ----------------------------------------------------------------------------- enumerated option combinations
+
+def oracle_options(case):
+    """class H: one entry of the enumerated product of options that touch the same state (gens_c17.option_cases), judged by
+    the oracle of the clause it belongs to"""
+    kind = case['kind']
+    labels = set({'displacement': oracle_displacement, 'strain': oracle_strain, 'slip': oracle_slip}[kind](case['case']))
+    labels.add('opt_' + kind)
+    return labels
+
+
 CLAUSES = [
-    Clause('displacement', oracle_displacement, G17.displacement_cases, quick=1200, thorough=20000,
+    Clause('displacement', oracle_displacement, G17.displacement_cases, quick=1200, thorough=22000,
            min_share={'nt': 0.3, 'rewrapped': 0.4, 'direct': 0.25, 'box_differs': 0.08, 'searched': 0.05,
                       'queried0': 0.35, 'queried1': 0.35, 'q_other_shells': 0.13, 'inplace_built': 0.22, 'ref_inplace_built': 0.12,
                       'cur_inplace_built': 0.16, 'decoy': 0.15, 'repeat': 0.18, 'int_pos': 0.008,
-                      'unit_1': 0.14, 'unit_small': 0.14, 'unit_si': 0.07, 'unit_large': 0.03},
+                      'unit_1': 0.14, 'unit_small': 0.14, 'unit_si': 0.07, 'unit_large': 0.03,
+                      # cross-pollinated classes (half of the smallest share seen at seeds 1-4, less for the small ones)
+                      'ledger': 0.49, 'ledger_same_shape': 0.49, 'twin': 0.12, 'scribbled': 0.17, 'stored_narrow': 0.075,
+                      'stored_narrow_both': 0.05, 'stored_f4': 0.04, 'stored_f8_be': 0.028, 'at_dtype_limit': 0.025, 'setpos_form4': 0.035,
+                      'tiny_u': 0.035, 'near_face': 0.1, 'decades': 0.06, 'sperm': 0.13, 'vperm': 0.2, 'lefthanded': 0.1,
+                      'whole_cells': 0.005},
            desc='displacement() = imposed displacement through the periodic boundaries (homogeneous F with deformed cell, rigid slip, '
                 'random per-atom vectors up to 0.45 cell widths, translations by several cells), every box_reference setting, on '
                 'System objects that were queried before and / or brought to their state in place'),
-    Clause('strain', oracle_strain, G17.strain_cases, quick=1000, thorough=14000,
+    Clause('strain', oracle_strain, G17.strain_cases, quick=940, thorough=15000,
            min_share={'nt': 0.15, 'F_both': 0.2, 'subset_dup': 0.06, 'wrapper': 0.1, 'surface': 0.15, 'axes_given': 0.08,
                       'nbr_neighbors': 0.1, 'twotype': 0.15, 'theta_given': 0.15,
                       'queried0': 0.35, 'queried1': 0.35, 'q_other_shells': 0.25, 'am_wrapped': 0.07, 'strain_resolved': 0.2,
                       'sh_inplace': 0.1, 'sh_pvec': 0.04, 'rs_solve': 0.07, 'derived_read_before': 0.2, 'derived_read_first': 0.4,
                       'stage0_judged': 0.10, 'dd_resolved': 0.22, 'nbr_attr': 0.1,
-                      'unit_1': 0.14, 'unit_small': 0.14, 'unit_si': 0.07, 'unit_large': 0.03},
+                      'unit_1': 0.14, 'unit_small': 0.14, 'unit_si': 0.07, 'unit_large': 0.03,
+                      # cross-pollinated classes (cases in the class of the open finding KEY_PV_VIEW carry no labels)
+                      'ledger': 0.48, 'ledger_same_shape': 0.48, 'twin': 0.12, 'pv_reused': 0.05, 'stored_narrow': 0.03, 'pv_dtype': 0.008,
+                      'cutoff_f32': 0.08, 'theta_npscalar': 0.055, 'ref_scalar': 0.085, 'at_dtype_limit': 0.028,
+                      'near_identity': 0.08, 'tiny_E': 0.07, 'tiny_R': 0.08, 'near_face': 0.12, 'ca_near_ideal': 0.02,
+                      'sperm': 0.13, 'vperm': 0.25, 'lefthanded': 0.14, 'F_struct': 0.095, 'F_lower': 0.018, 'F_upper': 0.018},
            desc='homogeneous F: Strain.G = F^-T at every atom with a 3-D neighbour set, strain/rotation/invariants/angular velocity, '
                 'zero Nye tensor, asdict, save_to_system, nye_tensor() function, (F-I).d0 differential displacements; for fresh '
                 'objects and for Strain / DifferentialDisplacement objects in their second state (solved, read, changed, solved again)'),
-    Clause('slip', oracle_slip, G17.slip_cases, quick=1000, thorough=14000,
+    Clause('slip', oracle_slip, G17.slip_cases, quick=880, thorough=15000,
            min_share={'nt': 0.15, 'slip_generic': 0.2, 'nye_class_vs_function': 0.12, 'nye_nonuniform': 0.12, 'cut_periodic': 0.1,
                       'inplane_open': 0.1, 'ddref1': 0.15, 'both_halves_move': 0.2,
                       'queried0': 0.33, 'queried1': 0.33, 'q_other_shells': 0.22, 'q_r0': 0.07, 'inplace_built': 0.22,
@@ -1815,14 +2502,30 @@ CLAUSES = [
                       # (no guard on 'unit_si' here and below: on the unchanged code those cases end in the open finding
                       # KEY_DISREG_UNIT - after slip vector, differential displacements and Nye tensor were judged - and
                       # cases excluded by an open finding carry no labels)
-                      'unit_1': 0.14, 'unit_small': 0.12, 'unit_large': 0.03},
+                      'unit_1': 0.14, 'unit_small': 0.12, 'unit_large': 0.03,
+                      # cross-pollinated classes (no guard on 'stored_narrow': on the unchanged code every such case ends in the
+                      # open finding KEY_SV_DTYPE, after everything else was judged, and carries no labels)
+                      'ledger': 0.5, 'ledger_same_shape': 0.5, 'twin': 0.11, 'scribbled': 0.17, 'cutoff_f32': 0.09, 'ref_scalar': 0.08,
+                      'arg_form1': 0.012, 'arg_form2': 0.025, 'arg_form3': 0.02, 'arg_form4': 0.02, 'arg_form5': 0.02, 'arg_form6': 0.02,
+                      'tiny_slip': 0.07, 'plane_near_atoms': 0.2, 'm_near_axis': 0.09, 'slip_near_axis': 0.085, 'near_face': 0.11,
+                      'sperm': 0.12, 'vperm': 0.2, 'lefthanded': 0.12},
            desc='rigid slip: slip_vector = n_across x relative displacement of the own half, disregistry = slip at every coordinate, '
                 'ddvectors = u_j - u_i per listed pair (both references), Nye tensor of class / function / own curl agree; on System '
                 'objects with earlier neighbour-list queries / stale neighbors attributes / in-place construction, repeated calls'),
-    Clause('invariance', oracle_invariance, G17.invariance_cases, quick=560, thorough=8000,
+    Clause('invariance', oracle_invariance, G17.invariance_cases, quick=580, thorough=8500,
            min_share={'nt': 0.25, 'cfg_slip': 0.2, 'cfg_F': 0.2, 'nye_compared': 0.5, 'rewrapped': 0.2,
                       'queried0': 0.3, 'queried1': 0.29, 'q_other_shells': 0.23, 'decoy': 0.16,
-                      'unit_1': 0.14, 'unit_small': 0.14, 'unit_large': 0.03},
+                      'unit_1': 0.14, 'unit_small': 0.14, 'unit_large': 0.03,
+                      # cross-pollinated classes
+                      'ledger': 0.49, 'ledger_same_shape': 0.49, 'twin': 0.12, 'near_threshold': 0.15, 'near_identity': 0.025,
+                      'sperm': 0.12, 'vperm': 0.2, 'lefthanded': 0.12, 'F_struct': 0.015},
            desc='all results unchanged (per-atom arrays permuted, pair list mapped) under a common translation with or without '
                 're-wrapping and a consistent renumbering; the first pair of objects has been used before, the second is fresh'),
+    Clause('options', oracle_options, enumerate=G17.option_cases, quick=652, thorough=2664,
+           min_share={'nt': 0.4, 'opt_strain': 0.2, 'opt_slip': 0.1, 'opt_displacement': 0.15},
+           desc='enumerated (not sampled) combinations of the options that touch the same state, on fixed small crystals, judged by the '
+                'oracles of the three clauses above: form of p_vectors x axes x neighbour-list route x second life of the Strain object; '
+                'earlier state x property read in it x way of recomputing x first property read afterwards; every ordered pair of '
+                'properties read first; slip_vector route x stale neighbors attributes; DifferentialDisplacement reference x list route x '
+                'construction route x in-place history; cut axis x periodicity flags; box_reference x periodicity of either system'),
 ]
